@@ -110,7 +110,9 @@ impl Chk {
                 && pos == pos2
                 && Some(usize::from(id)) == want
                 && Some(NonZeroUsize::from(id).get()) == want
-                && id.to_string().parse::<usize>().ok() == want;
+                && id.to_string().parse::<usize>().ok() == want
+                && format!("{:#}", id).parse::<usize>().ok() == want
+                && format!("{:>1}", id).parse::<usize>().ok() == want;
             self.ck("C11", ok, || format!("index conversions of {} disagree with position {:?}", id, pos));
         }
         for i in 0..count {
@@ -188,7 +190,7 @@ impl Hooks for Chk {
             self.step = 0;
             self.mine.clear();
             self.mine_alt = None;
-            for n in [0usize, 1, 7, 100, 5000] {
+            for n in [0usize, 1, 7, 100, 5000, if self.hist % 16 == 0 { 60_000 } else { 300 }] {
                 let mut a = Arena::<Pay>::with_capacity(n);
                 let cap = a.capacity();
                 self.ck("C13", cap >= n, || format!("with_capacity({}).capacity() = {}", n, cap));
